@@ -20,7 +20,8 @@
    misuses the API (Write without a writer, a control frame over 125 bytes, an unknown message
    type, a flate stream that does not end in 00 00 ff ff, an argument of 2^62 bytes ...). *)
 From Verif Require Import Lib.Base Lib.Sx Model.WsWrite.
-From Verif Require Import Proofs.WsWrite Proofs.WsWriteFrame Proofs.WsWriteSession Proofs.WsWriteOps.
+From Verif Require Import Lib.WsSha1 Gen.Gen_websocket.
+From Verif Require Import Proofs.WsWrite Proofs.WsWriteFrame Proofs.WsWriteSession Proofs.WsWriteOps Proofs.WsWriteHandshake Proofs.WsWriteFail.
 Open Scope N_scope.
 
 (* ---- c13_wire_valid ----
@@ -90,6 +91,90 @@ Proof.
   intros H. destruct (law data stream H) as (body & -> & Hi). rewrite zbody_app. exact Hi.
 Qed.
 
+(* ---- c13_accept_key: the opening handshake ----
+   [compute_accept_key] is computeAcceptKey with an executable Gallina SHA-1 and base64
+   (Lib/WsSha1.v, cross-checked against crypto/sha1 / encoding/base64 by the correspondence run
+   on random keys) and the GUID regenerated from util.go; it is RFC 6455's value (same GUID), it
+   maps the section 1.3 example key to the example answer, and the two ends of the library
+   agree for EVERY key: whenever Upgrade accepts a request, Dial accepts the answer, and both
+   sides switch permessage-deflate on or off together. *)
+Theorem c13_accept_key :
+  websocket_keyGUID = rfc_guid /\
+  (forall key, compute_accept_key key = rfc_accept key) /\
+  compute_accept_key [100;71;104;108;73;72;78;104;98;88;66;115;90;83;66;117;98;50;53;106;90;81;61;61]
+  = [115;51;112;80;76;77;66;105;84;120;97;81;57;107;89;71;122;122;104;90;82;98;75;43;120;79;111;61] /\
+  (forall u q r, response_of (upgrade_decide u q) = Some r ->
+     client_decide (rq_key q) r = (0, uc_comp u && mem_bytes pmd_name (rq_exts q))) /\
+  (forall key r, rs_101 r = true -> rs_upg r = true -> rs_conn r = true ->
+     (fst (client_decide key r) <> 1 <-> rs_accept r = compute_accept_key key)).
+Proof.
+  split; [exact guid_is_rfc|]. split; [exact accept_is_rfc|]. split; [exact accept_rfc_example|].
+  split; [exact handshake_agrees|exact client_accepts_iff].
+Qed.
+
+(* Upgrader.Upgrade's decision table against RFC 6455 section 4.2.1 / 4.2.2 and RFC 7692
+   section 5: soundness (an accepted request is a GET with Upgrade: websocket, Connection:
+   Upgrade, version 13, a key and an acceptable origin; the answer carries the RFC's accept
+   value, a subprotocol that the client offered and the server lists -- or none --, and the
+   extension iff the client offered permessage-deflate and the server enables it),
+   completeness, and the status of every refusal.  Not enforced by the code and therefore NOT
+   claimed: the key decoding to 16 bytes (4.2.1 item 5) and the server_max_window_bits rule of
+   RFC 7692 7.1.2.1 ([upgrade_lax_key]; inherited from upstream; the library's own client never
+   sends such requests). *)
+Theorem c13_upgrade_sound u q acc proto z : upgrade_decide u q = HAccept acc proto z ->
+  rq_get q = true /\ rq_conn q = true /\ rq_upg q = true /\ rq_v13 q = true /\ rq_origin q = true /\
+  rq_resp_ext q = false /\ rq_key q <> [] /\
+  acc = rfc_accept (rq_key q) /\
+  (forall sp, uc_protos u = Some sp ->
+     proto = [] \/ (mem_bytes proto (rq_protos q) = true /\ mem_bytes proto sp = true)) /\
+  (z = true <-> uc_comp u = true /\ mem_bytes pmd_name (rq_exts q) = true).
+Proof. exact (upgrade_sound u q acc proto z). Qed.
+
+Theorem c13_upgrade_complete u q :
+  rq_get q = true -> rq_conn q = true -> rq_upg q = true -> rq_v13 q = true -> rq_origin q = true ->
+  rq_resp_ext q = false -> rq_key q <> [] ->
+  upgrade_decide u q = HAccept (rfc_accept (rq_key q)) (select_subprotocol u q)
+                               (uc_comp u && mem_bytes pmd_name (rq_exts q)).
+Proof. exact (upgrade_complete u q). Qed.
+
+Theorem c13_upgrade_reject_status u q st : upgrade_decide u q = HReject st ->
+  (st = 405 /\ rq_get q = false) \/ (st = 500 /\ rq_resp_ext q = true) \/ (st = 403 /\ rq_origin q = false) \/
+  (st = 400 /\ (rq_conn q = false \/ rq_upg q = false \/ rq_v13 q = false \/ rq_key q = [])).
+Proof. exact (upgrade_reject_status u q st). Qed.
+
+(* ---- error paths: what holds after a transport write has failed ----
+   The model has the transport fail at a chosen write ([wbudget]); [c13_wire_valid] is about
+   transports that do not fail ([healthy]).  (1) A failing write latches the error, as
+   writeFatal does.  (2) From then on EVERY operation -- any arguments, well-formed or not --
+   leaves the bytes given to the transport exactly as they were: nothing is sent after the
+   failure.  (3) NextWriter, Close, WriteMessage, WriteJSON, WritePreparedMessage and
+   WriteControl report an error.  (4) What does NOT hold: "every later write fails".
+   messageWriter.fatal tests `w.err != nil` where `w.err == nil` is meant, so the writer that
+   saw the failure is never marked and a later Write/WriteString/ReadFrom on it that fits the
+   buffer returns success although nothing will be sent ([c13_later_write_fails_refuted]:
+   NextWriter ok, Write ok, Close = transport error, Write "ok", Close = error). *)
+Theorem c13_transport_failure_latches w t bufs w' e : werrc w = 0 -> conn_write w t bufs = (w', e) ->
+  e <> 0 -> e = eTransport /\ werrc w' = eTransport.
+Proof. exact (transport_failure_latches w t bufs w' e). Qed.
+
+Theorem c13_after_failure_nothing_sent c pms os s x :
+  werrc (mw s) <> 0 -> run_oplist c pms s os = Ok x -> wire_of (fst x) = wire_of s.
+Proof. exact (after_failure_wire c pms os s x). Qed.
+
+Theorem c13_after_failure_reported c pms s o x : werrc (mw s) <> 0 -> run_op c pms s o = Ok x ->
+  match o with
+  | ONext _ _ | OClose _ | OWriteMessage _ _ _ _ _ | OJson _ _ _ _ | OCtl _ _ => snd x <> 0
+  | OPrepared idx _ _ => nth_error pms (N.to_nat idx) <> None -> snd x <> 0
+  | _ => True
+  end.
+Proof. exact (after_failure_reported c pms s o x). Qed.
+
+Theorem c13_later_write_fails_refuted :
+  codes_of (mkC false 30) [] (with_budget (init_cst false [[1;2;3;4]]) (Some 0))
+           [ONext 1 []; OWrite [1] []; OClose []; OWrite [2] []; OClose []; ONext 1 []]
+  = [0; 0; eTransport; 0; eTransport; eTransport].
+Proof. exact later_write_fails_refuted. Qed.
+
 (* ---- c13_flush_frame: one flushFrame call = one RFC frame, header in front of the data ----
    For every state with a 14-byte header area (contents arbitrary: stale bytes of earlier frames
    or of the handshake response never reach the wire), buffered data d and server-side extra e:
@@ -106,7 +191,7 @@ Theorem c13_flush_frame c w (final : bool) extra :
     wire w' = wire w ++ enc_frame (srv c) final (cflag w) (ftype w) (next_key w) (buffered w ++ extra) /\
     keys w' = (if srv c then keys w else snd (pop_key (keys w))) /\
     length (hdr w') = 14%nat /\
-    werrc w' = (if ftype w =? opClose then eCloseSent else 0) /\
+    werrc w' = (if ftype w =? opClose then eCloseSent else 0) /\ wbudget w' = None /\
     (final = false -> rbuf w' = [] /\ pos w' = maxHdr /\ ftype w' = opCont /\ cflag w' = false).
 Proof. exact (flush_ok c w final extra). Qed.
 
@@ -156,6 +241,14 @@ Print Assumptions c13_step_refines.
 Print Assumptions c13_ops_are_harness_ops.
 Print Assumptions c13_wire_valid_instance.
 Print Assumptions c13_roundtrip_compressed.
+Print Assumptions c13_accept_key.
+Print Assumptions c13_upgrade_sound.
+Print Assumptions c13_upgrade_complete.
+Print Assumptions c13_upgrade_reject_status.
+Print Assumptions c13_transport_failure_latches.
+Print Assumptions c13_after_failure_nothing_sent.
+Print Assumptions c13_after_failure_reported.
+Print Assumptions c13_later_write_fails_refuted.
 Print Assumptions c13_flush_frame.
 Print Assumptions c13_parse_encoded.
 Print Assumptions c13_prepared_frame.
